@@ -1205,6 +1205,10 @@ impl<'c, E: LElem, C: Coll<E>> LInterp<'c, E, C> {
         if live != 0 && !leak_elems_ok {
             return (out, Some(Violation { property: "C03", kind: "element-leaked".into(), step, detail: format!("{live} tracked elements never dropped") }));
         }
+        let (zm, zd) = world::with(|w| (w.zst_made, w.zst_dropped));
+        if zm != zd && !leak_elems_ok {
+            return (out, Some(Violation { property: "C03", kind: "element-leaked".into(), step, detail: format!("{zm} zero-sized elements with drop glue were constructed but {zd} dropped") }));
+        }
         (out, None)
     }
 }
